@@ -1,4 +1,5 @@
 import Gws.Generated.TransFW
+import Gws.Props.TransSend
 /-!
 # T3 for the aggregator `flateWriter` of writefile.go (C05): the translated methods equal the model
 
@@ -149,14 +150,15 @@ theorem write_eq (w : FlateWriter) (p : Bytes) : flateWriter_write w p = some (w
 
 /-- `Write(p)`: after `write`, iff `shouldCall`, exactly one callback — frame `index`, not final, the bytes of the FIRST
 buffer — then that buffer is dropped and the index advances; the callback's error is returned (one step of `Writer.feed`) -/
-theorem Write_eq (cb : Nat → Bool → Bytes → Option GoErr) (w : FlateWriter) (p : Bytes) :
-    flateWriter_Write cb w p =
+theorem Write_eq {σ : Type} (cb : σ → Nat → Bool → Bytes → σ × Option GoErr) (st : σ) (w : FlateWriter) (p : Bytes) :
+    flateWriter_Write cb st w p =
       (let w1 := w.write p
        if w1.shouldCall then
          match w1.buffers with
          | [] => none
-         | b0 :: rest => some ({ index := w1.index + 1, buffers := rest }, (0 : Int), cb w1.index false b0.data)
-       else some (w1, (0 : Int), none)) := by
+         | b0 :: rest =>
+           some ({ index := w1.index + 1, buffers := rest }, (cb st w1.index false b0.data).1, (0 : Int), (cb st w1.index false b0.data).2)
+       else some (w1, st, (0 : Int), none)) := by
   unfold flateWriter_Write
   simp only [write_eq, shouldCall_eq, Option.bind_eq_bind, Option.bind_some, Option.pure_def]
   generalize w.write p = w1
@@ -171,13 +173,13 @@ theorem Write_eq (cb : Nat → Bool → Bytes → Option GoErr) (w : FlateWriter
 /-- `Flush()`: everything still held is joined into the first buffer, the sync-flush trailer is removed, and exactly one
 callback is made — frame `index`, final, those bytes (the body of `Writer.FlateWriter.flush`); with no buffer at all the
 Go code panics (`c.buffers[0]`) -/
-theorem Flush_eq (cb : Nat → Bool → Bytes → Option GoErr) (w : FlateWriter) :
-    flateWriter_Flush cb w =
+theorem Flush_eq {σ : Type} (cb : σ → Nat → Bool → Bytes → σ × Option GoErr) (st : σ) (w : FlateWriter) :
+    flateWriter_Flush cb st w =
       (match w.buffers with
        | [] => none
        | b0 :: rest =>
          let data := stripTail (b0.data ++ (rest.map (·.data)).flatten)
-         some ({ index := w.index + 1, buffers := { b0 with data := data } :: rest }, cb w.index true data)) := by
+         some ({ index := w.index + 1, buffers := { b0 with data := data } :: rest }, (cb st w.index true data).1, (cb st w.index true data).2)) := by
   obtain ⟨idx, bufs⟩ := w
   unfold flateWriter_Flush
   cases bufs with
@@ -214,14 +216,154 @@ theorem Flush_eq (cb : Nat → Bool → Bytes → Option GoErr) (w : FlateWriter
     · have hI : ¬ ((d.length : Int) ≥ 4) := by omega
       simp only [hI, h4, if_false, false_and]
 
+
+/-! ## the compressed `WriteFile` path below the compressor
+
+`bigDeflater.Compress(reader, fw, dict)`: while `readerWrapper.WriteTo` feeds it (`TransEquiv.RL.WriteTo_eq`) the compressor calls
+`fw.Write` with pieces of its output — `outs`, in order; klauspost is not translated, so *which* pieces is an input — and stops at
+the first error; then `fw.Flush()` unless the reader failed. `compressT` is that calling sequence over the TRANSLATED `Write` and
+`Flush`; `compressFile_translated` shows it produces the frames and the error of the model's `Writer.compressFile`. -/
+
+/-- the Go callback seen from the aggregator, for a model callback `f`: the frame it produces is appended to what was written -/
+def cbOf (f : Nat → Bool → Bytes → Except WErr Bytes) (st : List Bytes) (index : Nat) (eof : Bool) (p : Bytes) :
+    List Bytes × Option GoErr :=
+  match f index eof p with
+  | .ok frame => (st ++ [frame], none)
+  | .error e => (st, some (goErrOfW e))
+
+/-- the compressor's `Write` calls on the translated `flateWriter.Write`, in order, until one fails -/
+def feedT {σ : Type} (cb : σ → Nat → Bool → Bytes → σ × Option GoErr) : σ → FlateWriter → List Bytes → Option (FlateWriter × σ × Option GoErr)
+  | st, w, [] => some (w, st, none)
+  | st, w, p :: ps =>
+    match flateWriter_Write cb st w p with
+    | none => none
+    | some (w', st', _, some e) => some (w', st', some e)
+    | some (w', st', _, none) => feedT cb st' w' ps
+
+/-- `Compress`: feed, then (if the reader reached EOF) the translated `Flush` -/
+def compressT {σ : Type} (cb : σ → Nat → Bool → Bytes → σ × Option GoErr) (st : σ) (sawEof : Bool) (outs : List Bytes) : Option (σ × Option GoErr) :=
+  match feedT cb st {} outs with
+  | none => none
+  | some (_, st', some e) => some (st', some e)
+  | some (w', st', none) =>
+    if !sawEof then some (st', some GoErr.io)
+    else (flateWriter_Flush cb st' w').map fun r => (r.2.1, r.2.2)
+
+private theorem write_ne (w : FlateWriter) (p : Bytes) : (w.write p).buffers ≠ [] := by
+  unfold FlateWriter.write
+  simp only []
+  split
+  · rename_i h
+    rw [List.getLast?_eq_none_iff] at h
+    split at h
+    · simp at h
+    · rename_i h0
+      exact absurd (by rw [h]; rfl) h0
+  · split <;> simp
+
+private theorem shouldCall_len (w : FlateWriter) (h : w.shouldCall = true) : 2 ≤ w.buffers.length := by
+  unfold FlateWriter.shouldCall at h
+  simp only [] at h
+  split at h
+  · cases h
+  · omega
+
+/-- the translated feed writes the model's frames and returns the model's error; without an error the writers agree -/
+private theorem feedT_eq (f : Nat → Bool → Bytes → Except WErr Bytes) : ∀ (outs : List Bytes) (st : List Bytes) (w : FlateWriter),
+    ∃ w', feedT (cbOf f) st w outs = some (w', st ++ (feed f w outs).2.1, ((feed f w outs).2.2).map goErrOfW)
+      ∧ ((feed f w outs).2.2 = none → w' = (feed f w outs).1) := by
+  intro outs
+  induction outs with
+  | nil => intro st w; exact ⟨w, by simp [feedT, feed], fun _ => by simp [feed]⟩
+  | cons p ps ih =>
+    intro st w
+    rw [feedT, Write_eq, feed]
+    simp only []
+    cases hs : (w.write p).shouldCall
+    · simpa using ih st (w.write p)
+    · cases hb : (w.write p).buffers with
+      | nil =>
+        have := shouldCall_len _ hs
+        rw [hb] at this
+        simp at this
+      | cons b0 rest =>
+        cases hf : f (w.write p).index false b0.data with
+        | error e => simp [cbOf, hf]
+        | ok frame =>
+          obtain ⟨w', h1, h2⟩ := ih (st ++ [frame]) { index := (w.write p).index + 1, buffers := rest }
+          refine ⟨w', ?_, ?_⟩
+          · simp [cbOf, hf, h1]
+          · simpa [hf] using h2
+
+/-- after a feed without error the writer holds a buffer, if it did before or anything was written -/
+private theorem feed_ne (f : Nat → Bool → Bytes → Except WErr Bytes) : ∀ (outs : List Bytes) (w : FlateWriter),
+    (w.buffers ≠ [] ∨ outs ≠ []) → (feed f w outs).2.2 = none → (feed f w outs).1.buffers ≠ [] := by
+  intro outs
+  induction outs with
+  | nil => intro w h _; simpa [feed] using h
+  | cons p ps ih =>
+    intro w _
+    rw [feed]
+    simp only []
+    cases hs : (w.write p).shouldCall
+    · simpa using ih (w.write p) (Or.inl (write_ne w p))
+    · cases hb : (w.write p).buffers with
+      | nil =>
+        have := shouldCall_len _ hs
+        rw [hb] at this
+        simp at this
+      | cons b0 rest =>
+        cases hf : f (w.write p).index false b0.data with
+        | error e => simp [hf]
+        | ok frame =>
+          have hl := shouldCall_len _ hs
+          rw [hb] at hl
+          have hr : rest ≠ [] := by intro h; subst h; simp at hl
+          simpa [hf] using ih { index := (w.write p).index + 1, buffers := rest } (Or.inl hr)
+
+/-- the frames a streamed compressed message is cut into, and the error: the translated aggregator = `Writer.compressFile`.
+(`outs ≠ []`: a compressor that wrote nothing at all leaves no buffer, and `Flush` panics on `c.buffers[0]` in the code and
+in the model alike; klauspost always writes at least the final block.) -/
+theorem compressFile_translated (f : Nat → Bool → Bytes → Except WErr Bytes) (sawEof : Bool) (outs : List Bytes) (hne : outs ≠ []) :
+    compressT (cbOf f) [] sawEof outs
+      = some ((Writer.compressFile f sawEof outs).1, (Writer.compressFile f sawEof outs).2.map goErrOfW) := by
+  obtain ⟨w', h1, h2⟩ := feedT_eq f outs [] {}
+  have h3 := feed_ne f outs {} (Or.inr hne)
+  unfold compressT Writer.compressFile
+  rw [h1]
+  simp only [List.nil_append]
+  cases he : (feed f {} outs).2.2 with
+  | some e => simp
+  | none =>
+    have hw := h2 he
+    subst hw
+    have hb := h3 he
+    cases sawEof with
+    | false => simp [goErrOfW]
+    | true =>
+      simp only [Option.map_none, Bool.not_true, Bool.false_eq_true, if_false]
+      rw [Flush_eq]
+      unfold FlateWriter.flush
+      cases hbb : (feed f {} outs).1.buffers with
+      | nil => exact absurd hbb hb
+      | cons b0 rest =>
+        simp only [Option.map_some]
+        cases hf : f (feed f {} outs).1.index true (stripTail (b0.data ++ (rest.map (·.data)).flatten)) with
+        | error e => simp [cbOf, hf]
+        | ok frame => simp [cbOf, hf]
+
 /-! non-vacuity -/
 example : (flateWriter_write {} [1, 2, 3]).map (·.buffers.map (·.data)) = some [[1, 2, 3]] := by decide +kernel
 
 /-- `Flush` on two buffers whose joined contents `01 02 00 | 00 ff ff` end in the sync-flush trailer: the first buffer and the
-single (final, index 0) callback carry `01 02` — the callback here answers `nil` for exactly that call and an error otherwise -/
+single (final, index 0) callback carry `01 02` — the callback here records its calls -/
 example :
-    (flateWriter_Flush (fun i fin p => if i = 0 ∧ fin = true ∧ p = [1, 2] then none else some GoErr.io)
+    (flateWriter_Flush (fun (st : List (Nat × Bool × Bytes)) i fin p => (st ++ [(i, fin, p)], none)) []
         { index := 0, buffers := [{ cap := 16, data := [1, 2, 0] }, { cap := 16, data := [0, 255, 255] }] }).map
-      (fun r => (r.1.index, r.1.buffers.map (·.data), r.2)) = some (1, [[1, 2], [0, 255, 255]], none) := by decide +kernel
+      (fun r => (r.1.index, r.1.buffers.map (·.data), r.2.1, r.2.2)) = some (1, [[1, 2], [0, 255, 255]], [(0, true, [1, 2])], none) := by rfl
+
+/-- `compressT` on two `Write`s `01 02 03`, `00 00 ff ff` and EOF: one frame (index 0, final), the trailer stripped -/
+example : compressT (cbOf fun i eof p => .ok (UInt8.ofNat i :: (if eof then 1 else 0) :: p)) [] true [[1, 2, 3], [0, 0, 255, 255]]
+    = some ([[0, 1, 1, 2, 3]], none) := by decide +kernel
 
 end TransEquiv.FW
